@@ -75,11 +75,30 @@ BlockOKx(X, a, b, sliverok) ==
                 /\ b.cand[j].label = LabelOf(X, cs)
                 /\ (b.cand[j].fig = FigOf(X, cs) \/ (sliverok /\ SliverGroup(X, cs, b.cand[j]))))
   /\ (b.quota # "" => b.quota = a.quota)
+(* the summary lines of an action block: sums by status, non-transferable, residual, total, surplus *)
+(* (judged when figures print exactly: fixed-point arithmetic shown at full precision)           *)
+RECURSIVE SumBy(_, _, _)
+SumBy(cs, P(_), i) == IF i = 0 THEN 0 ELSE (IF P(cs[i]) THEN cs[i].vi ELSE 0) + SumBy(cs, P, i - 1)
+TotalsOK(X, a, b) ==
+  IF ~X.tot \/ a.tag = "log" THEN TRUE
+  ELSE IF X.method = "wigm"
+  THEN LET e == SumBy(a.cs, LAMBDA c : c.state = "elected" /\ ~c.pend, Len(a.cs))
+           p == SumBy(a.cs, LAMBDA c : c.state = "elected" /\ c.pend, Len(a.cs))
+           h == SumBy(a.cs, LAMBDA c : c.state = "hopeful", Len(a.cs))
+           d == SumBy(a.cs, LAMBDA c : c.state = "defeated", Len(a.cs))
+           total == e + p + h + d + a.nti
+       IN /\ b.sums.ev = e /\ b.sums.hv = h /\ b.sums.ntv = a.nti
+          /\ b.sums.pv = (IF p # 0 THEN p ELSE -1) /\ b.sums.dv = (IF d # 0 THEN d ELSE -1)
+          /\ b.sums.res = X.nS - total /\ b.sums.tot = X.nS /\ b.sums.sur = a.surplusi
+  ELSE IF X.method = "meek"
+  THEN b.sums.votes = a.votesi /\ b.sums.res = a.residuali /\ b.sums.tot = a.votesi + a.residuali /\ b.sums.sur = a.surplusi
+  ELSE TRUE
 BlockOK(X, a, b) == BlockOKx(X, a, b, FALSE)
 ReportFails(X) ==
   LET idx == ShownIdx(X) IN
   (IF Len(X.report) = Len(idx) THEN {} ELSE {<<"report_blocks", Len(X.report)>>}) \cup
   {<<"report_block", idx[j]>> : j \in {j \in 1 .. Len(idx) : j <= Len(X.report) /\ ~BlockOKx(X, X.acts[idx[j]], X.report[j], TRUE)}} \cup
+  {<<"report_totals", idx[j]>> : j \in {j \in 1 .. Len(idx) : j <= Len(X.report) /\ ~TotalsOK(X, X.acts[idx[j]], X.report[j])}} \cup
   {<<"KNOWN_F20", idx[j]>> : j \in {j \in 1 .. Len(idx) : j <= Len(X.report) /\ BlockOKx(X, X.acts[idx[j]], X.report[j], TRUE)
                                                                               /\ ~BlockOK(X, X.acts[idx[j]], X.report[j])}}
 
